@@ -311,7 +311,7 @@ def main():
         if a.replay:
             # a monitor scenario may have needed a session-history prologue (common.history_prologue):
             # try every variant, stop at the first that reproduces
-            for k in range(10):
+            for k in range(20):
                 os.environ['VERIF_FORCE_PROLOGUE'] = str(k)
                 rc = mod.replay(ctx, a.replay)
                 if rc != 0 or not getattr(mod, 'USES_PROLOGUE', False):
